@@ -1,36 +1,44 @@
 (* C20 — Reported progress is a proper weighted fraction.  Property theorems only. *)
-From Coq Require Import ZArith List Bool Reals.
+From Coq Require Import ZArith List Bool Reals Lia.
 Import ListNotations.
 Require Import V.Weights.Model V.Weights.Proofs V.Weights.FloatTie.
 Require Import V.Weights.RSum V.Weights.FloatModel V.Weights.FloatSum.
 Open Scope Z_scope.
 
-(* Weights after loading: for every number of stages n >= 1 and every assignment of given
-   (three-decimal), missing (= 0) or negative weights: non-negative, sum to one (10000
-   ten-thousandths), equal to the given ones whenever those are non-negative and sum to one, and
-   accepted unchanged by the status monitor's own re-check. *)
-Theorem C20_weights : forall given : list Z,
-  (1 <= length given)%nat -> three_decimals given ->
-  length (normalise given) = length given /\
-  Forall (fun m => 0 <= m) (normalise given) /\
-  sumZ (normalise given) = 10000 /\
-  (Forall (fun m => 0 <= m) given -> sumZ given = 10000 -> normalise given = given) /\
-  monitor_accepts (normalise given) = true.
+(* Weights after loading: for every number of stages n >= 1, every scale c >= 1 (unit 1/(1000c):
+   weights written with ANY number of decimals) and every assignment of given, missing (= 0) or
+   negative weights: non-negative, sum to one (1000c units), equal to the given ones whenever those
+   are non-negative and sum to one — and only then (otherwise the defaults) —, and accepted
+   unchanged by the status monitor's own re-check.  No hypothesis on the number of decimals
+   (the former three_decimals hypothesis is gone with the fix of F20b). *)
+Theorem C20_weights : forall (c : Z) (given : list Z),
+  1 <= c -> (1 <= length given)%nat ->
+  length (normalise c given) = length given /\
+  Forall (fun m => 0 <= m) (normalise c given) /\
+  sumZ (normalise c given) = 1000 * c /\
+  (Forall (fun m => 0 <= m) given -> sumZ given = 1000 * c -> normalise c given = given) /\
+  (~ (Forall (fun m => 0 <= m) given /\ sumZ given = 1000 * c) ->
+     normalise c given = map (Z.mul c) (repeat (1000 / Z.of_nat (length given)) (length given - 1)
+                           ++ [1000 - (Z.of_nat (length given) - 1) * (1000 / Z.of_nat (length given))])) /\
+  monitor_accepts c (normalise c given) = true.
 Proof.
-  intros given Hn H3. repeat split.
-  - exact (normalise_length given).
-  - exact (normalise_nonneg given Hn).
-  - exact (normalise_sum given Hn H3).
-  - intros Hp Hs. exact (normalise_keeps given H3 Hp Hs).
-  - exact (monitor_accepts_normalised given Hn).
+  intros c given Hc Hn. repeat split.
+  - exact (normalise_length c given).
+  - exact (normalise_nonneg c given ltac:(lia) Hn).
+  - exact (normalise_sum c given Hn).
+  - intros Hp Hs. exact (normalise_keeps c given Hp Hs).
+  - intros H. exact (normalise_changes c given Hn H).
+  - exact (monitor_accepts_normalised c given ltac:(lia) Hn).
 Qed.
 Print Assumptions C20_weights.
 
-(* Non-negativity and acceptance by the monitor hold for any decimals. *)
-Theorem C20_nonneg_any_decimals : forall given : list Z,
-  (1 <= length given)%nat ->
-  Forall (fun m => 0 <= m) (normalise given) /\ monitor_accepts (normalise given) = true.
-Proof. intros given Hn. split; [exact (normalise_nonneg given Hn)|exact (monitor_accepts_normalised given Hn)]. Qed.
+(* Non-negativity and acceptance by the monitor for any decimals (now a corollary of C20_weights). *)
+Theorem C20_nonneg_any_decimals : forall (c : Z) (given : list Z),
+  1 <= c -> (1 <= length given)%nat ->
+  Forall (fun m => 0 <= m) (normalise c given) /\ monitor_accepts c (normalise c given) = true.
+Proof.
+  intros c given Hc Hn. split; [exact (normalise_nonneg c given ltac:(lia) Hn)|exact (monitor_accepts_normalised c given ltac:(lia) Hn)].
+Qed.
 Print Assumptions C20_nonneg_any_decimals.
 
 (* The default path, explicitly: n-1 weights floor(1000/n)/1000 and the remainder on the last stage. *)
@@ -108,14 +116,14 @@ Theorem C20_float_constants :
 Proof. destruct consts64 as [A B]. split; [exact A|]. split; [exact B|]. split; [exact near_rnd64|exact near_rnd64_0]. Qed.
 Print Assumptions C20_float_constants.
 
-(* non-vacuity: a 3-stage package giving 0.2/0.3/0.5 meets every hypothesis, is kept, and a
-   7-stage package giving nothing gets 6 x 0.142 + 0.148 *)
+(* non-vacuity: a 3-stage package giving 0.2/0.3/0.5 meets every hypothesis, is kept, a
+   7-stage package giving nothing gets 6 x 0.142 + 0.148, four- and ten-decimal weights summing to one
+   are kept; the float theorems' hypotheses are met by FloatSum.float_nonvacuous *)
 Example C20_nonvacuous :
-  three_decimals [2000; 3000; 5000] /\ normalise [2000; 3000; 5000] = [2000; 3000; 5000] /\
-  normalise [0;0;0;0;0;0;0] = [1420;1420;1420;1420;1420;1420;1480] /\
-  normalise [15000; -5000] = [5000; 5000] /\
+  normalise 10 [2000; 3000; 5000] = [2000; 3000; 5000] /\
+  normalise 10 [0;0;0;0;0;0;0] = [1420;1420;1420;1420;1420;1420;1480] /\
+  normalise 10 [15000; -5000] = [5000; 5000] /\
+  normalise 10 [3333; 6667] = [3333; 6667] /\ normalise 10 [3335; 6675] = [5000; 5000] /\
+  normalise 10000000 [3333333333; 6666666667] = [3333333333; 6666666667] /\
   total [2000; 3000; 5000] [4;2;0] = 14000.
-Proof.
-  repeat split; try reflexivity.
-  repeat constructor; [exists 200|exists 300|exists 500]; reflexivity.
-Qed.
+Proof. repeat split; reflexivity. Qed.
